@@ -17,7 +17,16 @@ type Out struct {
 	// Only, when > 0, mutes every case but that one (replay of a single case under the same seed)
 	Only int
 	mute bool
+	// MaxCaseLines bounds the lines of one case (0: DefaultMaxCaseLines). An engine that never comes to rest emits traces
+	// for as long as the harness waits: past the bound one line `obs overflow <bound>` is written and the rest of the case
+	// is dropped (a history of that size is not a behaviour any model accepts, and no driver should have to read it).
+	MaxCaseLines int
+	inCase       int
 }
+
+// DefaultMaxCaseLines: the largest case of the unchanged tree has a few thousand lines (families that print long id
+// streams set their own bound)
+const DefaultMaxCaseLines = 40000
 
 func NewOut() *Out { return &Out{w: bufio.NewWriterSize(os.Stdout, 1<<16)} }
 
@@ -25,6 +34,17 @@ func (o *Out) Line(format string, a ...any) {
 	o.mu.Lock()
 	defer o.mu.Unlock()
 	if o.mute {
+		return
+	}
+	max := o.MaxCaseLines
+	if max <= 0 {
+		max = DefaultMaxCaseLines
+	}
+	o.inCase++
+	if o.inCase > max {
+		if o.inCase == max+1 {
+			fmt.Fprintf(o.w, "obs overflow %d\n", max)
+		}
 		return
 	}
 	fmt.Fprintf(o.w, format, a...)
@@ -40,6 +60,7 @@ func (o *Out) Begin(family string, params ...any) int {
 		o.mu.Unlock()
 		return n
 	}
+	o.inCase = 0
 	fmt.Fprintf(o.w, "case begin %s %d", family, n)
 	for _, p := range params {
 		fmt.Fprintf(o.w, " %v", p)
